@@ -79,9 +79,7 @@ func (lh *WorkerLoop) Run(ctx context.Context) {
 			return
 
 		case msg := <-lh.MessagesChannel:
-			parsedMessage := interfaces.ToConsensusMessage(msg)
-			lh.logger.Debug("LHFLOW LHMSG WORKERLOOP RECEIVED %v from %v for H=%d V=%d", parsedMessage.MessageType(), parsedMessage.SenderMemberId(), parsedMessage.BlockHeight(), parsedMessage.View())
-			lh.filter.HandleConsensusRawMessage(msg)
+			lh.handleRawMessage(msg)
 
 		case trigger := <-lh.electionChannel:
 			if trigger == nil {
@@ -110,6 +108,22 @@ func (lh *WorkerLoop) Run(ctx context.Context) {
 			lh.logger.Debug("LHFLOW UPDATESTATE WORKERLOOP - Handled block with H=%d", height)
 		}
 	}
+}
+
+// the content of a raw message is untrusted bytes; a malformed one is dropped and must not take the loop down
+func (lh *WorkerLoop) handleRawMessage(msg *interfaces.ConsensusRawMessage) {
+	defer func() {
+		if r := recover(); r != nil {
+			lh.logger.Error("LHFLOW LHMSG WORKERLOOP dropped a message that could not be processed: %v", r)
+		}
+	}()
+	parsedMessage := interfaces.ToConsensusMessage(msg)
+	if parsedMessage == nil {
+		lh.logger.Info("LHFLOW LHMSG WORKERLOOP IGNORING message with unknown content")
+		return
+	}
+	lh.logger.Debug("LHFLOW LHMSG WORKERLOOP RECEIVED %v from %v for H=%d V=%d", parsedMessage.MessageType(), parsedMessage.SenderMemberId(), parsedMessage.BlockHeight(), parsedMessage.View())
+	lh.filter.HandleConsensusRawMessage(msg)
 }
 
 func (lh *WorkerLoop) handleUpdateState(receivedBlockWithProof *blockWithProof) {
